@@ -7,7 +7,7 @@ CHECKS = {
     "C06": dict(
         level="model_checking",
         mc=[],
-        gen=[dict(module="Gen_C06", slices=dict(quick=4, thorough=16))],
+        gen=[dict(module="Gen_C06", slices=dict(quick=16, thorough=16))],
         rule="TLC enumerates Gen_C06 (presence lattice of dispatch keys x recipient mode, boundary values in every "
              "numeric slot of every kind, calldata lengths, access-list shapes, chain ids x nonces, PRNG documents); "
              "non-trivial = distinct documents for which the specification yields exactly one allowed outcome "
@@ -97,7 +97,8 @@ CHECKS = {
     "C15": dict(
         level="model_checking",
         mc=[dict(module="MC_SigText", workers=8)],
-        gen=[dict(module="Gen_C15", slices=dict(quick=8, thorough=16))],
+        gen=[dict(module="Gen_C15", slices=dict(quick=8, thorough=16)),
+             dict(module="Gen_C15cli", slices=dict(quick=8, thorough=16))],
         rule="MC_SigText: Parse(Print(sig)) = sig with and without prefix for boundary scalars x parity, malformed "
              "classes rejected; Gen_C15: spec-printed signatures (as printed / without 0x / open spellings), every "
              "length 0..140, non-hex in each region, v in {0,1,26,29,255}, r/s in {0,n,n+1,2^256-1,1,n-1}; "
@@ -156,6 +157,27 @@ CHECKS = {
              "numeric slots of the three kinds, 56 malformed spellings x 3 slots, byte fields / recipients / storage "
              "keys of wrong length, prefix and case, wrong-shape access-list entries, chainId null",
         assumptions=TX_ASSUME,
+    ),
+    "C11": dict(
+        level="model_checking",
+        mc=[dict(module="MC_Wallet", workers=16)],
+        gen=[dict(module="Gen_C11", slices=dict(quick=16, thorough=16), profiles=dict(quick=["dev"], thorough=["dev", "release"]))],
+        rule="MC_Wallet: the CLI stage machine over concrete commands: every behaviour ends in printed / failed / open, "
+             "a legacy transaction without chain id is printed by `sign` only with the override flag, a printed "
+             "transaction carries its chain id and the exact integer v; Gen_C11: kind x chain id {absent, null, 0, 1, "
+             "2^32, 2^63, 2^64-1, 2^64, 31-byte, 2^255-19, 2^255-18, 2^256-1} x override flag x --signature-only x 3 "
+             "bodies against the real binary (dev profile; thorough also the release profile), plus unguarded hashing",
+        assumptions=["exit status / stdout of the binary built from /repo are what a user observes"],
+    ),
+    "C19": dict(
+        level="model_checking",
+        mc=[dict(module="MC_HexCodec", workers=16)],
+        gen=[dict(module="Gen_C19", slices=dict(quick=8, thorough=16))],
+        rule="MC_HexCodec: Decode(layout(Encode(b))) = b for all byte strings up to length 2 over {00,0f,a0,ff} x every "
+             "placement of {nothing, space, newline} in each gap x case x prefix; corruptions rejected; Gen_C19: "
+             "encode -> decode sessions through the real binary for every length 0..64, 255, 256, 1023, 4095, 4096 "
+             "(quick) / 0..4096 (thorough), PRNG re-layouts of the hex text, malformed and non-UTF-8 input, file and stdin",
+        assumptions=["exit status / stdout of the binary built from /repo are what a user observes"],
     ),
 }
 
@@ -248,6 +270,19 @@ MANIFEST_TEXT = {
              "encodings across spellings), malformed ones refused, and open spellings either refused or exact.",
         design_ref="6 (C13)", note=_TRUST,
         technique="TLC model check of the number denotation + trace validation"),
+    "C11": dict(
+        text="The replay-protection guard is a stage of the TLA+ CLI pipeline (Wallet.tla) whose only successor for an "
+             "unprotected legacy transaction without the override flag is failure; v is computed on unbounded limb "
+             "integers.  TLC model-checks the stage machine and validates every run of the real binary over the "
+             "configuration lattice (exit status, stdout) against it.",
+        design_ref="6 (C11)", note=_TRUST,
+        technique="TLC model check of the CLI stage machine + trace validation of real-binary runs"),
+    "C19": dict(
+        text="Hex encode/decode are TLA+ definitions model-checked for inversion under every layout; runs of the real "
+             "binary (sessions encode -> decode with the data flowing at run time, re-laid-out and malformed text) are "
+             "validated by TLC.",
+        design_ref="6 (C19)", note=_TRUST,
+        technique="TLC model check + trace validation of CLI sessions"),
     "C07": dict(
         text="TLC proves on the specification (MC_Rlp, exhaustive over a bounded structurally complete universe) that "
              "the strict decoder inverts the encoder and rejects every non-canonical variant; the implementation is "
